@@ -49,6 +49,12 @@ class Ob:
         key = f"{self.id}/{construct}" + (f"/{detail}" if detail else "")
         if any(f.key == key for f in self.findings):
             return
+        through = getattr(self, "reads_through_list", {}).get(construct)
+        if through is not None:
+            # nothing positive is known: the rule looked for tests on the way from a value's source to its use, and
+            # part of that way now runs through the list a generator helper's values were collected in
+            self.undecide(f"{construct.rsplit('.', 1)[-1]} takes values from the generator helper `{through}` through an intermediate list, which this rule does not follow (`{detail or message[:40]}` not confirmed)")
+            return
         self.findings.append(Finding(key, where, message, witness))
 
     def funnel(self, construct: str, where: str, message: str, through: bool, expected: str, witness: str = "", detail: str = "callee", wrong: bool = False) -> None:
@@ -146,6 +152,7 @@ def evaluate(prop: str, cx: Cx) -> list[Ob]:
     out = []
     for ob_id, rule, floor, fn in REGISTRY.get(prop, []):
         ob = Ob(ob_id, rule, floor)
+        ob.reads_through_list = cx.model.__dict__.setdefault("_reads_through_list", {})  # filled as summaries are built
         try:
             fn(cx, ob)
         except AnalysisError as e:
